@@ -20,6 +20,7 @@ EXPLANATION = (
     "(R3) kernels that write more than one element validate every index before the first write (otherwise a failing assignment leaves a partial write); "
     "(R4) the assignment / op-assignment dispatchers cover the same kinds as the read dispatchers. Not decided: value-level resize semantics."
     ' (R2, extended) an assignment kernel that writes the sink through fewer index positions than the assignment form has (a linear offset) is reported: the single bounds check against len() lets an out-of-range row or column address another element.'
+    " (R5) operator families: for every index form the Add/Sub/Mul/Div (and plain) assign kernels have the same addressing normal form modulo the operator, so one member reading its source or sink differently from its siblings is reported; (R6) the assignment compilers hand (sink, index..., source) to the kernels in the role order the kernels' struct fields declare."
 )
 
 OPS = {"Add": "+", "Sub": "-", "Mul": "*", "Div": "/"}
@@ -337,6 +338,40 @@ def run(F, rep, tier):
                   "dispatcher %s has no arms for kind(s) %s although the read dispatchers and the other assignment dispatchers handle them: assignment to such a matrix/variable is rejected" % (n, miss),
                   "expanded %s" % n, sample={"dispatcher": n, "kinds": sorted(ks)})
     rep.floor("C04-R4", "assignment dispatchers", n_d, 5)
+    # chained dispatchers: `kind1-arms(arg).or_else(|_| kind2-arms(arg))...` - one match per (kernel family, kind).  Every numeric kind of the
+    # read dispatchers must be tried by as many of the chain's matches as the other kinds are (a kind left out of one family's chain is a
+    # matrix of that kind the indexed assignment rejects).
+    from lib.dispatch import value_pat
+    n_c = 0
+    for c in (crate, "mech_math.lib"):
+        for it in F.syn(c):
+            if it["k"] != "fn" or not re.search(r"assign.*_fxn$", it["name"]):
+                continue
+            per = {}
+            n_m = 0
+            for m in find(it["body"], "match"):
+                ks = set()
+                for a in m[2]:
+                    p = a[0]
+                    for alt in (p[1] if p[0] == "por" else [p]):
+                        for (kd, form, b) in [value_pat(x) for x in (alt[1] if alt[0] == "ptuple" else [alt])]:
+                            if kd and kd != "_":
+                                ks.add(re.sub(r"^Matrix", "", kd))
+                ks &= numeric
+                if ks:
+                    n_m += 1
+                for k in ks:
+                    per[k] = per.get(k, 0) + 1
+            if n_m < 8 or not per:
+                continue
+            n_c += 1
+            counts = sorted(per.get(k, 0) for k in numeric)
+            mode = counts[len(counts) // 2]
+            low = sorted(k for k in numeric if per.get(k, 0) < mode)
+            rep.check(not low, "C04-R4", "chain:%s" % it["name"] if not low else "chain:%s:missing:%s" % (it["name"], ",".join("%s(%d/%d)" % (k, per.get(k, 0), mode) for k in low)),
+                      "chained dispatcher %s tries kind(s) %s in fewer of its kernel families than the other numeric kinds (%d): an indexed assignment to a matrix of that kind is rejected where its siblings are accepted" % (
+                          it["name"], low, mode), "expanded %s" % it["name"], sample={"dispatcher": it["name"], "per_kind": per})
+    rep.floor("C04-R4", "chained assignment dispatchers", n_c, 15)
     rep.analysed = {"assign_compilers": sorted(nfc_forms), "kernels": n_k, "op_assign": {k: sorted(map(str, v)) for k, v in op_fns.items()}}
     from rules.loopshape import assign_compiler_operand_roles
     assign_compiler_operand_roles(F, rep, "C04-R6")
